@@ -1,6 +1,6 @@
 (* Dispatcher used by both evaluation routes (vm_compute in cases.v, extracted runner). *)
 From Coq Require Import String List Bool.
-From HV Require Import Base.Sexp Model.DepKeys Model.Merge Model.Validate Model.Ref.
+From HV Require Import Base.Sexp Model.DepKeys Model.Merge Model.Validate Model.Ref Model.Completion.
 Import ListNotations.
 Open Scope string_scope.
 
@@ -8,6 +8,8 @@ Definition run_kind (kind : string) (args : list sexp) : option sexp :=
   if String.eqb kind "schemakey" then run_schemakey args
   else if String.eqb kind "merge" then run_merge args
   else if String.eqb kind "validate" then run_validate args
+  else if String.eqb kind "completion" then run_completion args
+  else if String.eqb kind "completions" then run_completions args
   else run_ref kind args.
 
 (* (case <id> (<kind> args...) <observed>)  ->  (<id> ok) | (<id> diff <model-output>) | (<id> badinput) *)
@@ -16,7 +18,9 @@ Definition run_case (c : sexp) : sexp :=
   | SList [SAtom tag; id; SList (SAtom kind :: args); observed] =>
       if String.eqb tag "case" then
         match run_kind kind args with
-        | Some out => if sexp_eqb out observed then SList [id; SAtom "ok"] else SList [id; SAtom "diff"; out]
+        | Some out =>
+            if sexp_eqb out (SList [SAtom "delegated"]) then SList [id; SAtom "skip"]   (* not modelled at this position *)
+            else if sexp_eqb out observed then SList [id; SAtom "ok"] else SList [id; SAtom "diff"; out]
         | None => SList [id; SAtom "badinput"]
         end
       else SList [SAtom "badcase"]
